@@ -102,6 +102,11 @@ func (f *Bitmap) Unpack(data []byte) (int, error) {
 		if err != nil {
 			return 0, fmt.Errorf("failed to decode content for %d bitmap: %w", i, err)
 		}
+		// a prefixer that yields a zero block length decodes nothing: there is
+		// no first byte to look at
+		if len(decoded) == 0 {
+			return 0, fmt.Errorf("failed to decode content for %d bitmap: empty bitmap", i)
+		}
 		read += readDecoded
 		f.data = append(f.data, decoded...)
 
